@@ -72,6 +72,7 @@ type Ctx struct {
 	Exhaustive  bool
 	Notes       []string
 	maxSamples  int
+	knownSet    map[string]bool
 }
 
 func NewCtx(prop, tier string, seed int64, verifDir string, prog *Program) *Ctx {
@@ -180,6 +181,20 @@ func loadKnown(verifDir string) ([]KnownEntry, error) {
 		return nil, fmt.Errorf("known_findings.json: %w", err)
 	}
 	return out.Findings, nil
+}
+
+// IsKnown reports whether a finding key is listed as a known (unrepaired) finding for this property.
+func (c *Ctx) IsKnown(rule, fn, construct string) bool {
+	if c.knownSet == nil {
+		c.knownSet = map[string]bool{}
+		ks, _ := loadKnown(c.VerifDir)
+		for _, k := range ks {
+			if k.Status == "known" {
+				c.knownSet[k.Key()] = true
+			}
+		}
+	}
+	return c.knownSet[c.Property+"|"+rule+"|"+fn+"|"+construct]
 }
 
 // Finish matches findings against the committed known-findings file, prints
